@@ -148,7 +148,23 @@ fn check_roto_type(
                 x if x == IPADDR => "IpAddr",
                 x if x == PREFIX => "Prefix",
                 x if x == STRING => "String",
-                _ => panic!(),
+                _ => {
+                    // a leaf that is a registered type (the string views):
+                    // compared by identity, like `Val<T>`
+                    let Type::Name(type_name) = &roto_type else {
+                        return Err(error_message);
+                    };
+                    return match type_info
+                        .resolve_type_name(type_name.name)
+                    {
+                        TypeDefinition::Runtime(_, id)
+                            if id == rust_type.type_id =>
+                        {
+                            Ok(())
+                        }
+                        _ => Err(error_message),
+                    };
+                }
             };
             let expected_roto = Type::named(expected_name, Vec::new());
             if expected_roto == roto_type {
